@@ -119,8 +119,12 @@ def build_lib(kind="san", repo=None, hooks=True):
     if not os.path.exists(os.path.join(repo, "config.h")):
         cfgdir = os.path.join(VERIF, ".cache", "cfg")
         os.makedirs(cfgdir, exist_ok=True)
-        shutil.copy(os.path.join(VERIF, "harness", "config_fallback.h"),
-                    os.path.join(cfgdir, "config.h"))
+        dst = os.path.join(cfgdir, "config.h")
+        if not os.path.exists(dst):
+            # atomic: other checks may be compiling against it right now
+            tmpc = dst + ".tmp%d" % os.getpid()
+            shutil.copy(os.path.join(VERIF, "harness", "config_fallback.h"), tmpc)
+            os.replace(tmpc, dst)
     flags += ["-DHAVE_CONFIG_H", "-I" + cfgdir, "-I" + os.path.join(repo, "src"),
               "-Wno-everything"]
     key = tree_hash(repo, " ".join(flags))
